@@ -648,12 +648,13 @@ class Translator:
 
             def again(env_b, ind_b):
                 _, _, args_b = self.env_params({n: env_b[n] for n in names})
-                return '  ' * ind_b + f'{loop} fuel {args_b}'
+                return '  ' * ind_b + f'{loop} fuel0 k {args_b}'
             exit_text = self.block(rest, dict(env), mod, 2, k, fname)
             body_text = self.block(s.body, dict(env), mod, 2, again, fname)
-            self.aux[idx - 1] = (f'def {loop} (fuel : Nat) {sig} :=\n  match fuel with\n  | 0 =>\n{exit_text}\n'
-                                 f'  | fuel + 1 =>\n{body_text}\n')
-            return f'{pad}{loop} {env[bound.id][0]} {args}'
+            self.aux[idx - 1] = (f'def {loop} (fuel0 : Nat) (k : Nat) {sig} :=\n  match k with\n  | 0 =>\n{exit_text}\n'
+                                 f'  | k + 1 =>\n{body_text}\n')
+            self.cur_uses_fuel0 = True
+            return f'{pad}{loop} fuel0 {env[bound.id][0]} {args}'
         raise Unsupported('for loop ' + ast.unparse(it)[:40])
 
     def while_loop(self, s, rest, env, mod, ind, k, fname):
@@ -668,14 +669,16 @@ class Translator:
 
         def again(env_b, ind_b):
             _, _, args_b = self.env_params({n: env_b[n] for n in names})
-            return '  ' * ind_b + f'{loop} fuel {args_b}'
+            return '  ' * ind_b + f'{loop} fuel0 fuel {args_b}'
         exit_text = self.block(rest, dict(env), mod, 2, k, fname)
         body_text = self.block(s.body, dict(env), mod, 3, again, fname)
-        self.aux[idx - 1] = (f'def {loop} (fuel : Nat) {sig} :=\n  if {cond} then\n    match fuel with\n'
+        # fuel0: the budget every loop of this function starts with; fuel: what is left of it in this loop
+        self.aux[idx - 1] = (f'def {loop} (fuel0 : Nat) (fuel : Nat) {sig} :=\n  if {cond} then\n    match fuel with\n'
                              f'    | 0 => Transc.nan   -- iteration budget of the model exhausted\n'
                              f'    | fuel + 1 =>\n{body_text}\n  else\n{exit_text}\n')
         self.cur_has_fuel = True
-        return f'{pad}{loop} fuel {args}'
+        self.cur_uses_fuel0 = True
+        return f'{pad}{loop} fuel0 fuel0 {args}'
 
     # ------------------------------------------------------------------ functions
     def reads_switches_direct(self, mod, f):
@@ -787,6 +790,7 @@ class Translator:
         lean = f'{mod.ns}.{f.name}' + ('_dict' if static_get_dict else '')
         self.aux = []
         self.cur_has_fuel = False
+        self.cur_uses_fuel0 = False
 
         def fell_off(env_b, ind_b):
             raise Unsupported('control reaches the end of the function without return')
@@ -807,7 +811,9 @@ class Translator:
             ret = 'dict'
         head = []
         if self.cur_has_fuel:
-            head.append('(fuel : Nat)')
+            head.append('(fuel0 : Nat)')
+        elif self.cur_uses_fuel0:
+            body = '  let fuel0 : Nat := 0\n' + body
         if rs:
             head.extend(f'({s} : Bool)' for s in SWITCHES)
         text = ''
